@@ -65,7 +65,7 @@ CHECKS['C16'] = dict(
         'thr_binary/inverse/explicit-max', 'thr_truncate/threshold/regular', 'thr_truncate/threshold/inverse',
         'thr_truncate/zero/regular', 'thr_truncate/zero/inverse', 'thr_type_u8', 'thr_type_s8', 'thr_type_u16',
         'thr_type_s16', 'thr_type_f32', 'thr_type_rgb8', 'thr_value_equals_threshold', 'thr_nothing_above',
-        'thr_channels_differ_per_pixel', 'thr_mixed_narrowing_changes_the_comparison', 'thr_contiguous_source_into_sub_view',
+        'thr_channels_differ_per_pixel', 'thr_mixed_narrowing_changes_the_comparison', 'thr_contiguous_source_into_sub_view', 'morph_rgb8_into_bgr8',
         'otsu_u8', 'otsu_s8', 'otsu_u16', 'otsu_s16', 'otsu_rgb8', 'otsu_rgb16', 'otsu_regular', 'otsu_inverse',
         'otsu_constant_image', 'otsu_empty_image',
         'morph_se3', 'morph_se5', 'morph_dilate_changes_image', 'morph_erode_changes_image', 'morph_opening_changes_image',
